@@ -259,6 +259,38 @@ class ListOf(Ty):
         return SList(n, elem, uid)
 
 
+class MListOf(Ty):
+    """A *mutable* list of symbolic length whose elements are ints / bools / strings or tuples of these
+    (pyvc.mlist.MList): results accumulated in loops, out-parameters.  In `M.loop(... modifies=...)` the
+    list is havocked in place."""
+
+    def __init__(self, elem):
+        self.elem = elem
+
+    def shape(self):
+        return _mshape(self.elem)
+
+    def make(self, interp, name):
+        from .mlist import MList
+        m = MList(interp, interp.st.fresh_name(name), self.shape())
+        n = interp.st.fresh_int(name + '.len')
+        interp.st.assume(n >= 0)
+        m.length = n
+        return m
+
+
+def _mshape(ty):
+    if isinstance(ty, FixedList):
+        return ('tuple', tuple(_mshape(t) for t in ty.elems))
+    if isinstance(ty, _Int):
+        return ('int',)
+    if isinstance(ty, _Bool):
+        return ('bool',)
+    if isinstance(ty, _Str):
+        return ('str',)
+    raise Unsupported('MListOf element type %r' % (ty,))
+
+
 class FixedList(Ty):
     def __init__(self, *elems, as_tuple=False):
         self.elems = elems
@@ -309,8 +341,9 @@ class Custom(Ty):
 
 
 class IterOf(Ty):
-    """An iterator (position 0) over a fresh sequence of symbolic length: the shape of a `lines: Iterator[str]`
-    parameter, and of the result of a generator function used through its contract."""
+    """An iterator (position 0) over a fresh sequence of symbolic length (e.g. the lines of a file): the shape of
+    a `lines: Iterator[str]` parameter.  In clauses: `it.xs` is the underlying sequence, `it.pos` the number of
+    items consumed so far."""
 
     def __init__(self, elem, min_len=0):
         self.elem = elem
@@ -371,6 +404,14 @@ def make_indexed(interp, ty, uid, idx_term):
         return new_opaque(interp, iface, uid + '[]', index=(idx_term,))
     if isinstance(ty, Opaq):
         return OpaqueVal('%s[%s]' % (uid, z3.simplify(idx_term)))
+    if isinstance(ty, FixedList):
+        vals = [make_indexed(interp, t, '%s.%d' % (uid, i), idx_term) for i, t in enumerate(ty.elems)]
+        return tuple(vals) if ty.as_tuple else vals
+    if isinstance(ty, Opt):
+        f = z3.Function(uid + '[].is_none', z3.IntSort(), z3.BoolSort())
+        return SOpt(f(idx_term), make_indexed(interp, ty.inner, uid, idx_term))
+    if isinstance(ty, Const):
+        return ty.value
     raise Unsupported('indexed element of type %r' % (ty,))
 
 
@@ -462,7 +503,7 @@ def _indexed_scalar(interp, o, name, ty):
     idx = o._pv_index
     st = interp.st
     base = '%s.%s' % (o._pv_uid, name)
-    sorts = [z3.IntSort()] * len(idx)
+    sorts = [x.sort() for x in idx]
     if isinstance(ty, _Int):
         t = z3.Function(base, *(sorts + [z3.IntSort()]))(*idx)
         if ty.lo is not None:
@@ -692,18 +733,31 @@ def call_opaque_method(interp, o, name, m, args, kwargs):
                 st.emit(m.event + ':raised', o, exc)
             raise PyRaise(exc)
     if m.pure:
+        flat = []
+        for a in args:
+            if isinstance(a, tuple) and all(isinstance(x, (SInt, SBool, SStr, int, str, bool)) for x in a):
+                flat.extend(a)
+            else:
+                flat.append(a)
+        args = flat
         key = ('__call__', name, tuple(z3.simplify(to_z3(a)).sexpr() if isinstance(a, (Sym, int, str, bool))
                                         and not isinstance(a, (SOpt, SChoice, SList)) else id(a) for a in args))
         if key in o._pv_attrs:
             return o._pv_attrs[key]
         if all(isinstance(a, (SInt, SBool, SStr, int, str, bool)) for a in args) and \
                 isinstance(m.returns, (_Int, _Bool, _Str)):
-            sorts = [z3.IntSort()] * len(o._pv_index) + [to_z3(a).sort() for a in args]
+            sorts = [x.sort() for x in o._pv_index] + [to_z3(a).sort() for a in args]
             rs = {_Int: z3.IntSort(), _Bool: z3.BoolSort(), _Str: z3.StringSort()}[type(m.returns)]
             f = z3.Function('%s.%s()' % (o._pv_uid, name), *(sorts + [rs]))
             r = wrap(f(*(list(o._pv_index) + [to_z3(a) for a in args])))
             if isinstance(r, SInt) and m.returns.lo is not None:
                 st.assume(r.t >= m.returns.lo)
+        elif all(isinstance(a, (SInt, SBool, SStr, int, str, bool)) for a in args) and isinstance(m.returns, Iface):
+            # structured result of a pure method: an opaque object indexed by (object index, arguments),
+            # i.e. its attributes are functions of the arguments
+            iface = m.returns.iface() if isinstance(m.returns.iface, types.FunctionType) else m.returns.iface
+            r = new_opaque(interp, iface, '%s.%s()' % (o._pv_uid, name),
+                           index=tuple(o._pv_index) + tuple(to_z3(a) for a in args))
         else:
             r = m.returns.make(interp, '%s.%s()' % (o._pv_uid, name)) if m.returns is not None else None
         o._pv_attrs[key] = r
@@ -722,7 +776,7 @@ class Contract:
     def __init__(self, qname, params=None, ghosts=None, requires=None, returns=None, ensures=None,
                  raises=None, may_raise=(), raises_only=None, modifies=None, props=(), setup=None,
                  old=None, pure_result=False, notes='', concretize=None, replay=None, trusted=False,
-                 cover=True, inline=False, event=None):
+                 cover=True, inline=False, event=None, yields=None):
         self.qname = qname
         self.params = params or {}
         self.ghosts = ghosts or {}
@@ -740,6 +794,7 @@ class Contract:
         self.replay = replay
         self.trusted = trusted              # True: assumed contract (not verified); listed in evidence
         self.cover = cover
+        self.yields = yields                # generator functions: shape of the items (ListOf(...)) for call sites
         self.event = event                  # ghost event emitted at call sites that use the contract
         self.inline = inline                # verified, but call sites interpret the body (tiny helpers)
         self.func = None
